@@ -172,7 +172,7 @@ InSlice(p) == HSlice >= HSlices \/ HIdx(p) = HSlice
 (* statement templates: "@" stands for the value read from the location.  They mirror the     *)
 (* base grammar (with user-class operands only "+"), so that a template resolved with the      *)
 (* current kind is a statement of the base grammar.                                            *)
-HTemplates(k) ==
+HTemplates ==
        {<<"bin", op, "@", p>> : op \in BinOps, p \in Probe \cap Builtins}
   \cup {<<"bin", op, p, "@">> : op \in BinOps, p \in Probe \cap Builtins}
   \cup {<<"bin", "+", "@", p>> : p \in Probe}
@@ -180,8 +180,8 @@ HTemplates(k) ==
   \cup {<<"unary", "-", "@", "@">>, <<"sub", "[]", "@", "int">>, <<"sub", "[]", "@", "str">>,
         <<"call", "()", "@", "@">>}
 Templates(k) ==
-  IF k \in Builtins THEN HTemplates(k)
-  ELSE {t \in HTemplates(k) : (t[1] = "bin" => t[2] = "+") /\ t # <<"sub", "[]", "@", "str">>}
+  IF k \in Builtins THEN HTemplates
+  ELSE {t \in HTemplates : (t[1] = "bin" => t[2] = "+") /\ t # <<"sub", "[]", "@", "str">>}
 (* reads between two assignments (the location is overwritten afterwards) *)
 MidTemplates == {<<"bin", "+", "@", "int">>, <<"bin", "+", "int", "@">>, <<"unary", "-", "@", "@">>,
                  <<"sub", "[]", "@", "int">>, <<"call", "()", "@", "@">>}
@@ -227,7 +227,7 @@ UsableAt(h, p, t) ==
   /\ Len(h) >= 1
   /\ t \in (IF Len(h) = Len(p) THEN Templates(Last(h)) ELSE MidTemplates)
 Use == /\ loc # "none" /\ stmt[1] = "assign"
-       /\ \E t \in HTemplates("") : /\ UsableAt(hist, plan, t)
+       /\ \E t \in HTemplates : /\ UsableAt(hist, plan, t)
                                     /\ stmt' = t /\ out' = Outcome(Resolve(t, Last(hist)))
        /\ UNCHANGED <<loc, plan, hist>>
 
